@@ -266,7 +266,7 @@ class Gen:
             self.add({"op": "calls", "t": t, "fam": "calls", "kind": "wire", "wire": True, "items": items, "_items": meta})
         # many calls in flight on one connection
         items, meta = [], []
-        for k in range(48 if self.quick else 160):
+        for k in range(48 if (self.quick or t == "udp") else 160):   # udp: stay within the socket buffers
             L = self.rng.choice([0, 1, 5, 12, 13, 100, 255, 256, 1000, 5000])
             req = bytes([k & 0xff, k >> 8]) + self.content(L, self.KINDS[k % len(self.KINDS)])
             resp = bytes([k & 0xff]) + self.content(self.rng.choice([0, 1, 12, 300, 4096]), self.KINDS[(k + 3) % len(self.KINDS)])
@@ -763,6 +763,8 @@ def eval_case(m, c, o):
                     return v
                 if co["err"].startswith("SKIPPED"):
                     continue
+                if "deadline exceeded" in co["err"] or "timeout" in co["err"].lower():
+                    v.inconclusive.append("call timeout")     # re-run alone before it counts
                 v.bad("call-failed", "%s call %d (request %d bytes, response %d bytes) failed: %s"
                       % (t, k, len(req), len(resp), co["err"][:200]))
             elif co.get("resp") != enc(want):
